@@ -177,7 +177,7 @@ PROPERTY_META = {
  "C13": dict(level="proof",
    text="The C01/C05/C06/C09 postconditions instantiated at (N, es) for PxE1<N>/PxE2<N>: operands are N-bit patterns left-aligned in u32, the result "
         "must be closed (low 32-N bits zero) and be the posit-rule rounding to N bits; one monomorphic Kani obligation per (es, N, operation). Quick: "
-        "N in {2,3,5,8}, all operations. Thorough: every N <= 12 all operations; every N: mul, round, and div (modularly against the divider contract "
+        "N in {2,3,5,8} plus two widths rotated in by VERIF_SEED, all operations that fit the budget. Thorough: every N <= 12 all operations; every N: mul, round, and div (modularly against the divider contract "
         "for N >= 13); N = 32 (es=2) and N = 16 (es=1): add/sub/mul agree bit for bit with P32E2 / P16E1, whose contracts are C01.",
    note=_KANI_NOTE + " Kani cannot make a const generic symbolic: 'every N' is one proof per N. NOT discharged: add/sub for 13 <= N <= 31, mul_add family "
         "and sqrt for N >= 13 (SAT does not close these 64-bit-datapath obligations in hours): tier 'deep', not claimed; a bounded native evaluation "
@@ -186,7 +186,7 @@ PROPERTY_META = {
  "C14": dict(level="proof",
    text="The C02/C03/C07/C08/C04 postconditions instantiated per width: fixed <-> generic posit conversions, generic <-> generic (other exponent size), "
         "to_f32/to_f64, integer <-> generic posit, Q32E2 -> PxE2<N> (all 2^512 states) and PxE2<N> -> Q32E2; one Kani obligation per (es, N[, M], function). "
-        "Quick: N in {3, 8}; thorough: every N (pairs: M in {2,5,8,16,32}).",
+        "Quick: N in {3, 8} plus two widths rotated in by VERIF_SEED; thorough: every N (pairs: M in {2,5,8,16,32}).",
    note=_KANI_NOTE + " from_f32/from_f64 of the generic types loop on f64 values (out of the verifier's reach): bounded native evaluation only (known finding D18)."
         " Known findings D16 (integer -> generic) and D18 (float -> generic, bounded evaluation) are listed at whole-obligation granularity.",
    assumptions=["PxE1/PxE2::from_f32/from_f64 are not verified (float loops)", "generic->generic pairs are checked for source widths M in {2,5,8,16,32} only"]),
